@@ -10,6 +10,7 @@ import (
 	"bytes"
 	"errors"
 	"io"
+	"strconv"
 	"sync"
 	"sync/atomic"
 )
@@ -92,6 +93,14 @@ type vfWire struct {
 
 	// optional transform of delivered bytes (noise injection); applied per Write
 	transform func(p []byte) []byte
+
+	// message mutator: called with every complete header line (index, type, line incl. newline);
+	// returns the bytes to deliver instead. Binary blocks pass through unchanged.
+	mutator    func(index int, typ string, line []byte) []byte
+	mutLine    []byte
+	mutBinLeft int64
+	mutIndex   int
+	mutHits    int
 }
 
 type vfWriteRec struct {
@@ -396,6 +405,8 @@ func (w *vfWire) deliver(p []byte, seq int64, atomicChunk bool) error {
 			w.off += int64(len(p))
 			return nil
 		}
+	} else if w.mutator != nil {
+		out = w.mutateLocked(p)
 	} else {
 		out = w.applyFaultsLocked(p)
 	}
@@ -413,6 +424,56 @@ func (w *vfWire) deliver(p []byte, seq int64, atomicChunk bool) error {
 	w.queue = append(w.queue, vfChunk{append([]byte(nil), out...), atomicChunk})
 	w.cond.Broadcast()
 	return nil
+}
+
+// mutateLocked runs the stream through the message mutator (line-wise; binary blocks untouched).
+func (w *vfWire) mutateLocked(p []byte) []byte {
+	var out []byte
+	for _, b := range p {
+		if w.mutBinLeft > 0 {
+			w.mutBinLeft--
+			out = append(out, b)
+			continue
+		}
+		w.mutLine = append(w.mutLine, b)
+		if b != '\n' {
+			continue
+		}
+		line := w.mutLine
+		w.mutLine = nil
+		typ := "?"
+		body := bytes.TrimSuffix(bytes.TrimSuffix(line, []byte("\n")), []byte("!"))
+		if len(body) > 0 && body[0] == '#' {
+			if j := bytes.IndexByte(body, ':'); j > 0 {
+				typ = string(body[1:j])
+			}
+		}
+		repl := w.mutator(w.mutIndex, typ, line)
+		w.mutIndex++
+		if !bytes.Equal(repl, line) {
+			w.mutHits++
+		}
+		// a (possibly rewritten) binary DATA header announces the block that follows in the original stream
+		if typ == "DATA" && w.binary.Load() {
+			if n, err := strconv.ParseInt(string(body[6:]), 10, 64); err == nil && n > 0 {
+				w.mutBinLeft = n
+			}
+		}
+		out = append(out, repl...)
+	}
+	return out
+}
+
+func (w *vfWire) MutHits() int {
+	w.mu.Lock()
+	defer w.mu.Unlock()
+	return w.mutHits
+}
+
+func (w *vfWire) SetMutator(m func(index int, typ string, line []byte) []byte) {
+	w.mu.Lock()
+	w.mutator = m
+	w.mu.Unlock()
 }
 
 func (w *vfWire) Read(p []byte) (int, error) {
